@@ -95,12 +95,12 @@ func genP05(g *Gen, p *Program) {
 		ep := Epoch{Mode: g.epochMode(4)}
 		// direct entry points
 		nd := g.R.Range(1, 2)
-		direct := []string{"Parse", "MustParse", "UnmarshalText", "Sscan"}
+		direct := []string{"Parse", "MustParse", "UnmarshalText", "Sscan", "ScanState"}
 		for t := 0; t < nd; t++ {
 			tp := TaskProg{Priv: g.privSpec()}
 			n := g.R.Range(1, 6)
 			for i := 0; i < n; i++ {
-				tp.Ops = append(tp.Ops, g.fill(direct[g.R.Pick([]int{3, 2, 3, 3})], p))
+				tp.Ops = append(tp.Ops, g.fill(direct[g.R.Pick([]int{3, 2, 3, 3, 3})], p))
 			}
 			ep.Tasks = append(ep.Tasks, tp)
 		}
